@@ -268,7 +268,9 @@ func checkBad(c badCase) *rp.Fail {
 		got  string
 	}
 	var attempts []attempt
-	add := func(site string, err error, got any) { attempts = append(attempts, attempt{site, err, fmt.Sprint(got)}) }
+	add := func(site string, err error, got any) {
+		attempts = append(attempts, attempt{site, err, fmt.Sprint(got)})
+	}
 	site := "types." + c.Type
 	p := try(func() {
 		switch c.Type {
@@ -383,7 +385,7 @@ func badProps() []rp.Prop {
 	}
 }
 
-// carry aliases: a cache keyed on digits packed without validating them ('key = key<<4 + c-'0'', 'key = key*10 + c-'0'')
+// carry aliases: a cache keyed on digits packed without validating them ('key = key<<4 + c-'0”, 'key = key*10 + c-'0”)
 // maps "2023-02-1@" (or "2023-02-1:") to the key of "2023-02-20". The valid text is parsed first (so that it is in any
 // cache), then the alias - a text with a non-digit where a digit belongs, which must be rejected - then the valid text again.
 type aliasCase struct {
